@@ -34,6 +34,7 @@ func runC07(c *core.Ctx) {
 	c.Rule("C07.stop", "A2: ExecutingTask.stop: every node is stopped and waited for (walk callbacks that never return an error; stop before Wait), then et.wg.Wait(); walk visits every node of et.nodes in order")
 	c.Rule("C07.forklock", "A5 (must-hold lock set over go/cfg): every use of TaskMaster.forks/forkStats/taskToForkKeys, every method call on a value read out of forks (the fork edges: Collect in forkPoint, Close in delFork) and every call of a helper that needs the lock happens with tm.mu held on all paths reaching it; unexported methods without lock operations are helpers whose call sites carry the obligation; exported methods and function literals start without the lock")
 	c.Rule("C07.drainlock", "A5 (may-hold lock set over go/cfg + call graph with interface resolution inside alert and services/alert): no alert Service method calls, while Service.mu may be held, anything that reaches a WaitGroup.Wait for handler goroutines (Topics.DeleteTopic/Close/DeregisterHandler/ReplaceHandler, a handler's Close), as long as some handler's Handle/run reaches Service.Collect and Service.Collect takes Service.mu")
+	c.Rule("C07.stopwait", "A5/A6: F70, F46: nothing that runs on a node's goroutine (the function stored in node.runF and what is reachable from the functions of its file through static calls) calls a TaskMaster method that takes TaskMaster.mu, nor one that collects into the task master's own stream (whose consumer forkPoint needs TaskMaster.mu): StopTask/DeleteTask/Close hold that lock while they wait for the goroutine")
 	c.Rule("C07.tm", "A2/A6: stopTask removes the task from tm.tasks and detaches it (delFork / delete batches) before et.stop(); delFork closes the fork edge with Close, never Abort; Close drains (Drain) before stopping tasks; StopTask/DeleteTask/StopTasks/Close hold tm.mu around stopTask")
 	c.Rule("C07.stopf", "A6 effect disjointness: for every node type that assigns node.stopF and whose run path reads an input edge, no object torn down by the stop function (Abort/Close/Stop/Kill method or close() on a field of the node) is used by the node's consuming path (run function, receiver callbacks, group receivers, transitively in the package); reviewed exceptions are verified structurally")
 	c.Rule("C07.sink", "A1/A2: InfluxDBOutNode: the write buffer is flushed and then aborted after the consumer returned (deferred after start() or placed after Consume), flush before abort; writeBuffer.run answers a flush request with writeAll and then the flushed signal; writeAll attempts every pending batch (no early exit) and forgets it; enqueue blocks on the queue unless the buffer is stopping (no default arm)")
@@ -52,6 +53,7 @@ func runC07(c *core.Ctx) {
 	c07Edge(c, edgePkg)
 	c07Stop(c, root)
 	c07TM(c, root)
+	c07StopWait(c, root)
 	c07StopF(c, root)
 	c07Sink(c, root)
 	c07Tickers(c, root)
@@ -1170,4 +1172,125 @@ func c07Tickers(c *core.Ctx, pkg *packages.Package) {
 		_ = sends
 	}
 	c.Floor("C07.tickers", "ticker implementations", n, 2)
+}
+
+// c07StopWait: F70 / F46. StopTask, DeleteTask, StopTasks and Close hold TaskMaster.mu while they wait for the goroutines of the
+// task's nodes. So nothing reachable from a node's goroutine (the function stored in node.runF and what it calls in the package,
+// receiver callbacks included) may (a) call a TaskMaster method that takes TaskMaster.mu, or (b) write into the task master's
+// own stream (WriteKapacitorPoint/WritePoints → writePointsIn), whose only consumer, forkPoint, needs TaskMaster.mu: with more
+// than one edge buffer queued the writer blocks for good.
+func c07StopWait(c *core.Ctx, root *packages.Package) {
+	info := root.TypesInfo
+	byObj := map[*types.Func]*core.Func{}
+	for _, f := range core.AllFuncs(root) {
+		if o, ok := info.Defs[f.Decl.Name].(*types.Func); ok {
+			byObj[o] = f
+		}
+	}
+	isTMMu := func(e ast.Expr) bool { return an.FieldSel(info, e, "TaskMaster", "mu") }
+	locks := map[*types.Func]bool{} // TaskMaster methods that take mu themselves
+	feeds := map[*types.Func]bool{} // TaskMaster methods that collect into the task master's own stream
+	for o, f := range byObj {
+		if core.RecvName(f.Decl) != "TaskMaster" {
+			continue
+		}
+		ast.Inspect(f.Decl.Body, func(nd ast.Node) bool {
+			call, ok := nd.(*ast.CallExpr)
+			if !ok {
+				return true
+			}
+			if sel, ok := call.Fun.(*ast.SelectorExpr); ok {
+				if (sel.Sel.Name == "Lock" || sel.Sel.Name == "RLock") && isTMMu(sel.X) {
+					locks[o] = true
+				}
+				if sel.Sel.Name == "CollectPoint" && an.FieldSel(info, sel.X, "TaskMaster", "writePointsIn") {
+					feeds[o] = true
+				}
+			}
+			return true
+		})
+	}
+	// entry points: functions stored into node.runF
+	var entries []*types.Func
+	for _, f := range core.AllFuncs(root) {
+		ast.Inspect(f.Decl.Body, func(nd ast.Node) bool {
+			as, ok := nd.(*ast.AssignStmt)
+			if !ok || len(as.Lhs) != 1 || len(as.Rhs) != 1 || !an.FieldSel(info, as.Lhs[0], "node", "runF") {
+				return true
+			}
+			if sel, ok := ast.Unparen(as.Rhs[0]).(*ast.SelectorExpr); ok {
+				if m, ok := info.Uses[sel.Sel].(*types.Func); ok {
+					entries = append(entries, m)
+				}
+			}
+			return true
+		})
+	}
+	c.Floor("C07.stopwait", "node run functions (node.runF)", len(entries), 25)
+	// reachable set per entry (static calls + methods of types declared in the package that implement the edge receiver
+	// callbacks are reached through the consumers: approximated by all methods of the entry's receiver type and of the
+	// group types it constructs — here: every function of the same file as the entry)
+	calls := map[*types.Func][]struct {
+		to  *types.Func
+		pos token.Pos
+	}{}
+	for o, f := range byObj {
+		ast.Inspect(f.Decl.Body, func(nd ast.Node) bool {
+			if call, ok := nd.(*ast.CallExpr); ok {
+				if m := core.Callee(info, call); m != nil {
+					calls[o] = append(calls[o], struct {
+						to  *types.Func
+						pos token.Pos
+					}{m, call.Pos()})
+				}
+			}
+			return true
+		})
+	}
+	fileOf := func(o *types.Func) string { return c.P.Fset.Position(o.Pos()).Filename }
+	n := 0
+	reported := map[string]bool{}
+	for _, ent := range entries {
+		ef := byObj[ent]
+		if ef == nil {
+			continue
+		}
+		n++
+		// roots: the entry and every function declared in the entry's file (its receivers and groups live there)
+		seen := map[*types.Func]bool{}
+		var work []*types.Func
+		for o := range byObj {
+			if fileOf(o) == fileOf(ent) && core.RecvName(byObj[o].Decl) != "TaskMaster" {
+				seen[o] = true
+				work = append(work, o)
+			}
+		}
+		node := core.RecvName(ef.Decl)
+		for len(work) > 0 {
+			o := work[0]
+			work = work[1:]
+			for _, cl := range calls[o] {
+				if locks[cl.to] || feeds[cl.to] {
+					what := "takes TaskMaster.mu"
+					if feeds[cl.to] {
+						what = "writes into the task master's own stream, whose consumer (forkPoint) needs TaskMaster.mu"
+					}
+					cons := node + "→TaskMaster." + cl.to.Name()
+					if !reported[cons] {
+						reported[cons] = true
+						c.Fail("C07.stopwait", cons, cl.pos, "code that runs on the goroutine of a %s calls TaskMaster.%s, which %s; StopTask/DeleteTask/Close hold TaskMaster.mu while they wait for that goroutine: the stop never returns (and, holding the lock, stalls the fan-out and every other stop)", node, cl.to.Name(), what)
+					}
+					continue
+				}
+				if byObj[cl.to] != nil && !seen[cl.to] && core.RecvName(byObj[cl.to].Decl) != "TaskMaster" {
+					seen[cl.to] = true
+					work = append(work, cl.to)
+				}
+			}
+		}
+	}
+	if len(reported) == 0 {
+		c.Ok("C07.stopwait", "nodes#no-call-needs-tm.mu")
+	}
+	c.Note("C07.stopwait: TaskMaster methods that take mu: %d, that feed the master's stream: %d; node entry points: %d", len(locks), len(feeds), n)
 }
